@@ -126,6 +126,15 @@ func c18Values() []c18Value {
 		add("RouterAddress(parsed, non-zero expiration)", &vx, err)
 		c, err := router_address.NewRouterAddress(5, time.Time{}, "SSU2", map[string]string{"host": "::1", "port": "80", "caps": "6"})
 		add("RouterAddress(constructed)", c, err)
+		// the same address published twice with its options in two wire orders (neither sorted): equal content, different
+		// bytes - the comparison of one with the other is a read-only operation on both
+		pairs := refmodel.Mapping{{K: []byte("port"), V: []byte("4567")}, {K: []byte("host"), V: []byte("10.1.2.3")}, {K: []byte("caps"), V: []byte("4")}}
+		au := refmodel.RouterAddress{Cost: 5, Style: []byte("NTCP2"), Options: pairs}
+		vu, _, err := router_address.ReadRouterAddress(au.Bytes())
+		add("RouterAddress(parsed, unsorted options)", &vu, err)
+		at := refmodel.RouterAddress{Cost: 5, Style: []byte("NTCP2"), Options: refmodel.Mapping{pairs[1], pairs[2], pairs[0]}}
+		vt, _, err := router_address.ReadRouterAddress(at.Bytes())
+		add("RouterAddress(parsed, unsorted options) [twin]", &vt, err)
 	}
 	{
 		ri := gen.RouterInfo(choose.Run(nil, func(*choose.Ctx) {}))
@@ -325,8 +334,14 @@ func c18Ops(val c18Value) []c18Op {
 			switch {
 			case at == t:
 				ops = append(ops, c18Op{m.Name + "(self)", func() string { return renderOuts(fn.Call([]reflect.Value{rv})) }})
+				if tw := c18Twin(val.name); tw != nil && reflect.TypeOf(tw) == t {
+					ops = append(ops, c18Op{m.Name + "(twin)", func() string { return renderOuts(fn.Call([]reflect.Value{reflect.ValueOf(tw)})) }})
+				}
 			case at == t.Elem():
 				ops = append(ops, c18Op{m.Name + "(self)", func() string { return renderOuts(fn.Call([]reflect.Value{rv.Elem()})) }})
+				if tw := c18Twin(val.name); tw != nil && reflect.TypeOf(tw) == t {
+					ops = append(ops, c18Op{m.Name + "(twin)", func() string { return renderOuts(fn.Call([]reflect.Value{reflect.ValueOf(tw).Elem()})) }})
+				}
 			case at == reflect.TypeOf(data.I2PString{}):
 				k, _ := data.ToI2PString("host")
 				ops = append(ops, c18Op{m.Name + "(host)", func() string { return renderOuts(fn.Call([]reflect.Value{reflect.ValueOf(k)})) }})
@@ -354,6 +369,28 @@ func c18Ops(val c18Value) []c18Op {
 		}},
 	)
 	return ops
+}
+
+// c18Twin returns the value registered as "<name> [twin]" (or, for a twin, the value it is the twin of): a second
+// value of the same type with equal content and a different encoding, used as the argument of Equals. Twins are built
+// once per process; a comparison that writes to its ARGUMENT reaches its fixed point there, the write to its receiver
+// is what steps 0-3 judge.
+var (
+	c18TwinOnce sync.Once
+	c18TwinMap  map[string]any
+)
+
+func c18Twin(name string) any {
+	c18TwinOnce.Do(func() {
+		c18TwinMap = map[string]any{}
+		for _, v := range c18Values() {
+			c18TwinMap[v.name] = v.v
+		}
+	})
+	if strings.HasSuffix(name, " [twin]") {
+		return c18TwinMap[strings.TrimSuffix(name, " [twin]")]
+	}
+	return c18TwinMap[name+" [twin]"]
 }
 
 // ---------- worker protocol ----------
